@@ -27,12 +27,12 @@ def t3(rep, tier, seed):
         rep.add(H.run_case(f"C19/T3/{algo}/oversize-raises-ValueError", f"prtpy.packing::{algo}", T.c19_case, dom,
                            f"every sequence n<={N} over 0..5 with B=3 containing an oversize item (every position/multiplicity), formats x output types on a sub-sample, seeded random n<=12"))
     vals_list = [[1], [3, 1], [2, 2, 5], [0, 4, 1, 7], [5, 8, 13, 27, 14]]
-    kinds = [["numbins", k] for k in (0, 1, 3, 4, 7, -2)] + [["negative", i] for i in range(5)] \
+    kinds = [["numbins", k] for k in (0, 1, 3, 4, 7, -2, 2.5, 2.9, 1.5)] + [["negative", i] for i in range(5)] \
         + [["time_limit", t] for t in (0, -1, -0.5, -1e-9)] + [["partition_difference", d] for d in (0, -1, -7, 1.5, 2.0, 0.5)]
     kinds += [k + [ot] for k in kinds for ot in ("Sums", "BinCount")]
     dom = [{"kind": k, "values": v} for k in kinds for v in vals_list]
     rep.add(H.run_case("C19/T3/cbldm/malformed-raises-ValueError", "prtpy/partitioning/cbldm.py::cbldm", T.c19_cbldm_case, dom,
-                       "exactly one invalid argument: numbins in {0,1,3,4,7,-2}; one negative item at each position; time_limit in {0,-1,-0.5,-1e-9}; partition_difference in {0,-1,-7,1.5,2.0,0.5}; 5 item lists; 3 output types", nproc=1))
+                       "exactly one invalid argument: numbins in {0,1,3,4,7,-2,2.5,2.9,1.5} (through the public adaptor); one negative item at each position; time_limit in {0,-1,-0.5,-1e-9}; partition_difference in {0,-1,-7,1.5,2.0,0.5}; 5 item lists; 3 output types", nproc=1))
     dom = [{"k": k, "values": v, "j": j} for k in (1, 2, 3) for v in ([], [1], [1, 2, 3], [0, 0]) for j in range(3)]
     rep.add(H.run_case("C19/T3/BinnerKeepingSums.numitems/raises-NotImplementedError", "prtpy/binners.py::BinnerKeepingSums.numitems", T.c19_numitems_case, dom,
                        "bins-arrays of 1..3 bins with 0..3 items added", nproc=1))
